@@ -175,6 +175,76 @@ func (a *nonnil) mayNilAt(v ssa.Value, at ssa.Instruction) bool {
 	return a.mayNil(v, map[ssa.Value]bool{})
 }
 
+// everyCallerTests: fn is unexported, is only ever called directly, and at
+// each call the result is used only in comparisons with nil or where such a
+// comparison has already excluded nil.
+func (a *nonnil) everyCallerTests(p *Program, fn *ssa.Function) (int, bool) {
+	if fn.Parent() != nil || fn.Object() == nil || fn.Object().Exported() || invokedDynamically(p, fn) {
+		return 0, false
+	}
+	sites := staticCallSites(p, fn)
+	if len(sites) == 0 {
+		return 0, false
+	}
+	for _, s := range sites {
+		v, ok := s.(ssa.Value)
+		if !ok {
+			return 0, false // go / defer: result dropped, nothing to test
+		}
+		vals := []ssa.Value{v}
+		if _, isTuple := v.Type().(*types.Tuple); isTuple {
+			vals = nil
+			for _, ref := range liveRefs(v) {
+				if ex, ok := ref.(*ssa.Extract); ok && ex.Index == 0 {
+					vals = append(vals, ex)
+				}
+			}
+		}
+		for len(vals) > 0 {
+			x := vals[0]
+			vals = vals[1:]
+			for _, ref := range liveRefs(x) {
+				switch u := ref.(type) {
+				case *ssa.BinOp:
+					if (u.Op == token.EQL || u.Op == token.NEQ) && (isNilConst(u.X) || isNilConst(u.Y)) {
+						continue
+					}
+					return 0, false
+				case *ssa.Phi:
+					// merged with other values: the merged value is tested like the rest
+					seenPhi := false
+					for _, q := range vals {
+						if q == ssa.Value(u) {
+							seenPhi = true
+						}
+					}
+					if !seenPhi && len(vals) < 16 {
+						vals = append(vals, u)
+					}
+				case *ssa.Store:
+					// kept in a local variable: its loads
+					al, ok := u.Addr.(*ssa.Alloc)
+					if !ok || u.Val != x {
+						return 0, false
+					}
+					for _, r2 := range liveRefs(al) {
+						if ld, ok := r2.(*ssa.UnOp); ok && ld.Op == token.MUL && len(vals) < 16 {
+							vals = append(vals, ld)
+						}
+					}
+				case *ssa.DebugRef:
+				default:
+					ins, ok := ref.(ssa.Instruction)
+					if !ok || !nilGuarded(x, ins) {
+						return 0, false
+					}
+				}
+			}
+		}
+	}
+	return len(sites), true
+}
+
 // knownNilAt: the use at `at` is dominated by the nil edge of a test of v
 // against nil.
 func knownNilAt(v ssa.Value, at ssa.Instruction) bool {
@@ -428,6 +498,14 @@ func ruleNonNil(p *Program, r *Reporter) {
 			key += " whenever its error is nil"
 		}
 		if pos, ok := isBad[fn]; ok {
+			// a helper whose every caller looks at the result before using it:
+			// "nil" is then this helper's way of saying "nothing", and the
+			// callers (whose own results and sinks are judged with that in
+			// mind) turn it into an object
+			if n, ok := a.everyCallerTests(p, fn); ok {
+				r.OkNT(key, p.Pos(pos), fmt.Sprintf("may return nil to say \"nothing\"; each of its %d caller(s) compares the result with nil before any other use", n))
+				continue
+			}
 			r.Fail(key, p.Pos(pos), "this function can return a nil object.Object (a nil constant, a variable that may still hold its zero value, or the result of a function that can): the caller pushes or returns it and the next method call on it panics — outside Execute's recover when it is the script's result")
 		} else {
 			r.OkNT(key, p.Pos(fn.Pos()), "")
